@@ -31,7 +31,7 @@ RULE = ('case = generated workflow x (start point | start-task subset) + '
         'instances ran')
 ASSUMPTIONS = ['no manual triggering in these runs']
 MIN = {'warm_starts': 40, 'start_task_runs': 40, 'model_compared': 50}
-NCASES = {'quick': 240, 'thorough': 3000}
+NCASES = {'quick': 800, 'thorough': 10000}
 MONS = ['c01', 'c26']
 
 
@@ -95,7 +95,7 @@ def run_case(ctx, i, rng):
         missing = sorted(want - sub)
         if missing:
             from vlib.e1.c43 import known_c01
-            if known_c01(case, set(missing)):
+            if known_c01(case, set(missing), [res]):
                 ctx.count('missing_explained_by_C01_known_finding')
             else:
                 ctx.violation(
